@@ -1183,17 +1183,18 @@ def coverage(merged, tier):
                      "threading.Thread objects", "reference = the same program alone in a "
                      "pristine forked process"],
             "stub": ["the OS/GIL scheduler: replaced by baton passing at sys.settrace line/opcode "
-                     "events and at accesses to the two process-wide dictionaries",
-                     "qrcode.main.precomputed_qr_blanks and ElementTree._namespace_map are "
-                     "rebound to recording dict subclasses"]},
+                     "events and at accesses to process-wide containers",
+                     "every module-level / class-level / default-argument dict, list and set "
+                     "of qrcode.* and ElementTree._namespace_map are rebound to recording "
+                     "subclasses with identical behaviour (sim/traced.py)"]},
     }
 
 
 ASSUMPTIONS = [
     "pre-emption grain: line events in qrcode/** and xml/etree/ElementTree.py, opcode events "
-    "in makeImpl / SvgFragmentImage.__init__ family / register_namespace / _namespaces, and "
-    "every access to the two process-wide dictionaries; Pillow, pypng, decimal and re "
-    "internals execute as atomic steps",
+    "in makeImpl / the svg image __init__s / register_namespace and in the function of a "
+    "chosen target line, and every access to a process-wide container once it has been "
+    "written; Pillow, pypng, decimal and re internals execute as atomic steps",
     "CPython with the GIL; free-threaded builds are out of scope",
     "threads use disjoint objects (the property is about independent objects)",
     "reference = the library itself run alone in a pristine process (differential oracle)",
